@@ -531,21 +531,30 @@ def rule_r9(ctx):
             if node.kind == "stmt" and isinstance(node.ast, ast.Assign) and isinstance(node.ast.value, ast.Call) and dotted(node.ast.value.func) == mp + ".get" \
                     and isinstance(node.ast.targets[0], ast.Name):
                 gets[node.ast.targets[0].id] = node
-        for node, c in find_calls(g, lambda c: isinstance(c.func, ast.Name) and c.func.id in ("read", "write", "_exception", "readwrite") and c.args):
+        # every call that is handed a looked-up channel (read(obj), handler(obj), readwrite(obj, flags), ...)
+        def hands_over(c):
+            if not c.args:
+                return False
+            a0 = c.args[0]
+            if isinstance(c.func, ast.Name) and c.func.id in ("read", "write", "_exception", "readwrite"):
+                return True
+            return (isinstance(a0, ast.Name) and a0.id in gets) or (isinstance(a0, ast.Call) and dotted(a0.func) == mp + ".get") \
+                or (isinstance(a0, ast.Subscript) and dotted(a0.value) == mp)
+        for node, c in find_calls(g, hands_over):
             a0 = c.args[0]
             n += 1
             if isinstance(a0, ast.Name) and a0.id in gets:
                 if any(cmp_fact(t, pol) == ("is", a0.id, "None", False) for (t, pol) in guards_of(g, node)):
-                    ctx.r.ok(rid, "%s(%s) only for a descriptor still registered" % (c.func.id, a0.id), f.loc(node.ast))
+                    ctx.r.ok(rid, "%s(%s) only for a descriptor still registered" % (norm(c.func), a0.id), f.loc(node.ast))
                 else:
-                    ctx.r.violation(rid, key_of(f, None, "dispatch-none::" + c.func.id), "%s dispatches %s(%s) without testing the lookup for None" % (q, c.func.id, a0.id), f.loc(node.ast))
+                    ctx.r.violation(rid, key_of(f, None, "dispatch-none::" + norm(c.func)), "%s dispatches %s(%s) without testing the lookup for None" % (q, norm(c.func), a0.id), f.loc(node.ast))
             elif isinstance(a0, ast.Call) and dotted(a0.func) == mp + ".get":
-                ctx.r.violation(rid, key_of(f, None, "dispatch-none::" + c.func.id), "%s dispatches %s on an untested lookup" % (q, c.func.id), f.loc(node.ast))
+                ctx.r.violation(rid, key_of(f, None, "dispatch-none::" + norm(c.func)), "%s dispatches %s on an untested lookup" % (q, norm(c.func)), f.loc(node.ast))
             elif isinstance(a0, ast.Subscript):
                 pass  # reported under (a)
             else:
-                ctx.r.violation(rid, key_of(f, None, "dispatch-source::" + c.func.id), "%s dispatches %s(%s): not a tested map.get() result" % (q, c.func.id, norm(a0)), f.loc(node.ast))
-    ctx.r.floor(rid, n, 4, "dispatch calls in the poll passes")
+                ctx.r.violation(rid, key_of(f, None, "dispatch-source::" + norm(c.func)), "%s dispatches %s(%s): not a tested map.get() result" % (q, norm(c.func), norm(a0)), f.loc(node.ast))
+    ctx.r.floor(rid, n, 2, "dispatch calls in the poll passes")
 
 
 RULES = [rule_r1, rule_r2, rule_r3, rule_r4, rule_r5, rule_r6, rule_r7, rule_r8, rule_r9]
